@@ -984,6 +984,43 @@ def family_packages():
                  'prod/config': {'config.go': cfg(1)}, 'staging/config': {'config.go': cfg(2)}}
         specs.append(RawSpec(files, 'two injectors using equally named providers from two packages both named config (via %s)' % ('provider sets' if use_set else 'functions'),
                              family='packages', extra_pkgs=extra))
+    # ... and one injector that uses equally named sets of both packages at once (they provide different types)
+    def store(node, ty):
+        return ('package store\n\nimport (\n\t"example.com/corpus/vrt"\n\t"github.com/google/wire"\n)\n\ntype %s struct{ ID int }\n\n'
+                'func Open() %s {\n\tid, _ := vrt.Call(%d, false)\n\treturn %s{ID: id}\n}\n\nvar Set = wire.NewSet(Open)\n' % (ty, ty, node, ty))
+    files = {
+        'providers.go': ('package {PKG}\n\nimport (\n\t"example.com/corpus/vrt"\n\tpstore "example.com/corpus/{PKG}/primary/store"\n\trstore "example.com/corpus/{PKG}/replica/store"\n)\n\ntype Cluster struct{ ID int }\n\n'
+                         'func NewCluster(p pstore.Primary, r rstore.Replica) Cluster {\n\tid, _ := vrt.Call(0, false, p.ID, r.ID)\n\treturn Cluster{ID: id}\n}\n'),
+        'wire.go': ('//go:build wireinject\n// +build wireinject\n\npackage {PKG}\n\nimport (\n\t"github.com/google/wire"\n\tpstore "example.com/corpus/{PKG}/primary/store"\n\trstore "example.com/corpus/{PKG}/replica/store"\n)\n\n'
+                    'func Inject() Cluster {\n\tpanic(wire.Build(pstore.Set, rstore.Set, NewCluster))\n}\n\nfunc InjectF() Cluster {\n\tpanic(wire.Build(rstore.Open, pstore.Open, NewCluster))\n}\n'),
+        'zz_driver.go': ('//go:build !wireinject\n// +build !wireinject\n\npackage {PKG}\n\nimport "example.com/corpus/vrt"\n\nfunc VDrive() {\n'
+                         '\tfor which := 0; which < 2; which++ {\n\t\tspec := &vrt.Spec{Nodes: []vrt.Node{{Name: "NewCluster", Kind: vrt.KFunc, Params: []vrt.Ref{{Node: 1}, {Node: 2}}}, {Name: "primary/store.Open", Kind: vrt.KFunc}, {Name: "replica/store.Open", Kind: vrt.KFunc}}, Result: []vrt.Ref{{Node: 0}}, ArgIDs: make([][]int, 3)}\n'
+                         '\t\tvrt.Reset()\n\t\tvar res Cluster\n\t\tif which == 0 {\n\t\t\tres = Inject()\n\t\t} else {\n\t\t\tres = InjectF()\n\t\t}\n\t\tvrt.Check(spec, vrt.Outcome{Result: []int{res.ID}, CleanupNil: true})\n\t}\n}\n'),
+    }
+    specs.append(RawSpec(files, 'one injector using equally named sets (and functions) of two packages both named store', family='packages',
+                         extra_pkgs={'primary/store': {'store.go': store(1, 'Primary')}, 'replica/store': {'store.go': store(2, 'Replica')}}))
+    # ... a set that is ambiguous together with a direct provider, while an equally named set of an equally named
+    # package (analysed first) is not (C05); and an ill-formed provider behind the name of a well-formed one (C09)
+    files = {
+        'providers.go': 'package {PKG}\n\nimport "example.com/corpus/{PKG}/model"\n\nfunc provideConfig() model.Config { return model.Config{} }\n',
+        'wire.go': ('//go:build wireinject\n// +build wireinject\n\npackage {PKG}\n\nimport (\n\t"github.com/google/wire"\n\t"example.com/corpus/{PKG}/model"\n\tostore "example.com/corpus/{PKG}/order/store"\n\tustore "example.com/corpus/{PKG}/user/store"\n)\n\n'
+                    'func InitUser() model.DB {\n\tpanic(wire.Build(ustore.Set, provideConfig))\n}\n\nfunc InitOrder() model.DB {\n\tpanic(wire.Build(ostore.Set, provideConfig))\n}\n'),
+    }
+    extra = {'model': {'model.go': 'package model\n\ntype Config struct{ ID int }\ntype DB struct{ ID int }\n'},
+             'user/store': {'store.go': 'package store\n\nimport (\n\t"example.com/corpus/{PKG}/model"\n\t"github.com/google/wire"\n)\n\nfunc Open(c model.Config) model.DB { return model.DB{} }\n\nvar Set = wire.NewSet(Open)\n'},
+             'order/store': {'store.go': 'package store\n\nimport (\n\t"example.com/corpus/{PKG}/model"\n\t"github.com/google/wire"\n)\n\nfunc Open(c model.Config) model.DB { return model.DB{} }\nfunc DefaultConfig() model.Config { return model.Config{} }\n\nvar Set = wire.NewSet(Open, DefaultConfig)\n'}}
+    sp = RawSpec(files, 'must be rejected: a set that conflicts with a direct provider, behind the name of an equally named set of an equally named package that does not', expect='reject', reject_props=['C05'], family='packages', extra_pkgs=extra)
+    sp.diag_must_contain = 'Config'
+    specs.append(sp)
+    files = {
+        'providers.go': 'package {PKG}\n',
+        'wire.go': ('//go:build wireinject\n// +build wireinject\n\npackage {PKG}\n\nimport (\n\t"github.com/google/wire"\n\t"example.com/corpus/{PKG}/model"\n\tpdb "example.com/corpus/{PKG}/primary/db"\n\trdb "example.com/corpus/{PKG}/replica/db"\n)\n\n'
+                    'func InitPrimary() *model.DB {\n\tpanic(wire.Build(pdb.Open))\n}\n\nfunc InitReplica() *model.DB {\n\tpanic(wire.Build(rdb.Open))\n}\n'),
+    }
+    extra = {'model': {'model.go': 'package model\n\ntype DB struct{ ID int }\n'},
+             'primary/db': {'db.go': 'package db\n\nimport "example.com/corpus/{PKG}/model"\n\nfunc Open() *model.DB { return &model.DB{} }\n'},
+             'replica/db': {'db.go': 'package db\n\nimport "example.com/corpus/{PKG}/model"\n\nfunc Open() (*model.DB, int) { return &model.DB{}, 0 }\n'}}
+    specs.append(RawSpec(files, 'must be rejected: a provider with an illegal second result, behind the name of a well-formed provider of an equally named package', expect='reject', reject_props=['C09'], family='packages', extra_pkgs=extra))
     return specs
 
 
@@ -1134,6 +1171,19 @@ def family_frontend():
                          '\t\tvrt.Reset()\n\t\tvar res R\n\t\tif which == 0 {\n\t\t\tres = Inject()\n\t\t} else {\n\t\t\tres = Inject2()\n\t\t}\n\t\tvrt.Check(spec, vrt.Outcome{Result: []int{res.ID}, CleanupNil: true})\n\t}\n}\n'),
     }
     specs.append(RawSpec(files, 'provider-set variables declared several per var spec (second and third name used)', family='frontend'))
+    # ... the sets of one var spec provide the same type through different providers: reading the wrong
+    # initializer is silent (the program is still accepted and compiles)
+    files = {
+        'providers.go': ('package {PKG}\n\nimport (\n\t"example.com/corpus/vrt"\n\t"github.com/google/wire"\n)\n\ntype Clock struct{ ID int }\ntype App struct{ ID int }\n\n'
+                         'func NewReal() Clock {\n\tid, _ := vrt.Call(1, false)\n\treturn Clock{ID: id}\n}\n\nfunc NewFake() Clock {\n\tid, _ := vrt.Call(2, false)\n\treturn Clock{ID: id}\n}\n\nfunc NewThird() Clock {\n\tid, _ := vrt.Call(3, false)\n\treturn Clock{ID: id}\n}\n\n'
+                         'func NewApp(c Clock) App {\n\tid, _ := vrt.Call(0, false, c.ID)\n\treturn App{ID: id}\n}\n\nvar RealSet, FakeSet, ThirdSet = wire.NewSet(NewReal), wire.NewSet(NewFake), wire.NewSet(NewThird)\n'),
+        'wire.go': ('//go:build wireinject\n// +build wireinject\n\npackage {PKG}\n\nimport "github.com/google/wire"\n\n'
+                    'func Inject1() App {\n\tpanic(wire.Build(RealSet, NewApp))\n}\n\nfunc Inject2() App {\n\tpanic(wire.Build(FakeSet, NewApp))\n}\n\nfunc Inject3() App {\n\tpanic(wire.Build(ThirdSet, NewApp))\n}\n'),
+        'zz_driver.go': ('//go:build !wireinject\n// +build !wireinject\n\npackage {PKG}\n\nimport "example.com/corpus/vrt"\n\nfunc VDrive() {\n'
+                         '\tfor which := 1; which <= 3; which++ {\n\t\tspec := &vrt.Spec{Nodes: []vrt.Node{{Name: "NewApp", Kind: vrt.KFunc, Params: []vrt.Ref{{Node: which}}}, {Name: "NewReal", Kind: vrt.KFunc}, {Name: "NewFake", Kind: vrt.KFunc}, {Name: "NewThird", Kind: vrt.KFunc}}, Result: []vrt.Ref{{Node: 0}}, ArgIDs: make([][]int, 4)}\n'
+                         '\t\tvrt.Reset()\n\t\tvar res App\n\t\tswitch which {\n\t\tcase 1:\n\t\t\tres = Inject1()\n\t\tcase 2:\n\t\t\tres = Inject2()\n\t\tdefault:\n\t\t\tres = Inject3()\n\t\t}\n\t\tvrt.Check(spec, vrt.Outcome{Result: []int{res.ID}, CleanupNil: true})\n\t}\n}\n'),
+    }
+    specs.append(RawSpec(files, 'three provider sets of one var spec providing one type through different providers (each injector must call its own set\'s provider)', family='frontend'))
     # --- C15 zoo: declarations in the injector file must be copied and behave like their originals
     zoo = (
         'type Pair[T any] struct{ A, B T }\n\nfunc (p Pair[T]) First() T { return p.A }\n\n'
